@@ -50,7 +50,7 @@ structure Ctx where
   weak : Bool := false
   terminate : Bool := false
   /-- identity of the context (script handles refer to it) -/
-  id : Nat := 0
+  id : Nat := 1
 
 /-- One diagnostic: numeric code and level (0 fatal, 1 error, 2 warning, …). -/
 structure DiagEntry where
@@ -71,12 +71,21 @@ structure M where
   diags : List DiagEntry := []
   /-- contexts created by `spawn` (appended to `m_contexts`) -/
   spawned : List Ctx := []
-  nextCtx : Nat := 1
+  nextCtx : Nat := 2
   /-- virtual clock in milliseconds -/
   now : Nat := 0
   exitReq : Bool := false
   /-- `max_loop_iterations_in_unscheduled` -/
   maxLoops : Nat := 10000
+  /-- ids of the contexts currently in `m_contexts` (a script handle is "done" iff its id is not here) -/
+  alive : List Nat := [1]
+  /-- ids of contexts on which `terminate` has been called -/
+  termReq : List Nat := []
+  /-- `max_runtime` in ms (0 = no limit) and `m_runtime_timestamp` -/
+  maxRuntime : Nat := 0
+  runStart : Nat := 0
+  /-- sleeps are ignored (`disable_sleep`) -/
+  disableSleep : Bool := false
 
 /-! ### diagnostics -/
 
@@ -90,6 +99,9 @@ def M.log (m : M) (code : Nat) : M :=
   let lvl := levelOf code
   let m := { m with diags := m.diags ++ [{ code := code, level := lvl }] }
   if lvl ≤ 1 then { m with err := true, msgs := m.msgs ++ [code] } else m
+
+/-- one read of `std::chrono::system_clock::now()`: the virtual clock advances by one tick (1 ms) per read -/
+def M.readClock (m : M) : Nat × M := (m.now, { m with now := m.now + 1 })
 
 /-! ### variables (`value_scope`) -/
 
